@@ -50,6 +50,7 @@ def run(fb, rep, tier):
     c6_rearm(fb, rep)
     completion_flag(fb, rep, 'C10.7')
     c8_publish_then_notify(fb, rep)
+    c9_ack_forwarding(fb, rep)
 
 
 # ----------------------------------------------------------------------------- .1
@@ -857,3 +858,44 @@ def c8_publish_then_notify(fb, rep):
                     rep.ob(clause, 'K2 publish before notify', '%s: the new value of %s is written before the sleeper on %s is woken' % (f.sname, p_[5:], N), w is None, R.site(f, e),
                            '' if w is None else 'no notify follows the write on the path ' + ' -> '.join('B%s' % x[0] for x in w[-5:]), f.sname)
     rep.floor(clause, 'writes of watched fields in notifying methods', n, 1)
+
+
+# ----------------------------------------------------------------------------- .9
+
+def c9_ack_forwarding(fb, rep):
+    """K10 guard completeness of the acknowledgement tree.  A node forwards STOP_ACK / QUIT_ACK to its parent exactly once,
+    when its whole sub-tree is done: itself *and* all its children.  "Done" is the predicate has<X>Ack(); the guard of the
+    upward send in send<X>Ack() must depend on every counter / flag that predicate reads.  A guard that looks at the
+    children only forwards while the node itself is still searching and forwards again when it finishes: the root counts
+    one acknowledgement too many, stops waiting for a helper that is still running, or (count below zero) waits for ever."""
+    clause = 'C10.9'
+    n = 0
+    for x in ('Stop', 'Quit'):
+        snd = fb.find1('Communicator::send%sAck' % x)
+        has = fb.find1('Communicator::has%sAck' % x)
+        if rep.need(clause, snd, 'Communicator::send%sAck' % x) is None or rep.need(clause, has, 'Communicator::has%sAck' % x) is None:
+            continue
+        need = {q for q in R.this_fields_read(has)}
+        ups = [(b, i, e) for b, i, e in snd.events() if e.get('k') == 'call' and cname(e).split('::')[-1] == 'doSend%sAck' % x]
+        for b, i, e in ups:
+            n += 1
+            got = set()
+            inits = {v['id']: v['init'] for _, _, e2 in snd.events() if e2.get('k') == 'decl' for v in e2.get('vars', []) if v.get('init') is not None}
+            trees = [c for c, side in G.guard_trees(snd, set(snd.blocks), b)]
+            k = 0
+            while k < len(trees) and k < 32:         # locals mentioned by a guard stand for their initialiser
+                for nd in walk(trees[k]):
+                    if nd.get('k') == 'var' and nd.get('vk') == 'local' and nd.get('id') in inits:
+                        trees.append(inits.pop(nd['id']))
+                k += 1
+            for c in trees:
+                for nd in walk(c):
+                    if nd.get('k') == 'mem' and (ap(nd) or '').startswith('this.'):
+                        got.add(ap(nd))
+                    if nd.get('k') == 'call' and nd.get('repo') and nd.get('cmeth'):
+                        g = fb.find1(cname(nd))
+                        if g is not None and g.has_cfg:
+                            got |= set(R.this_fields_read(g))
+            rep.ob(clause, 'K10 guard completeness', 'send%sAck forwards to the parent only under a test of everything has%sAck() depends on' % (x, x),
+                   need <= got and bool(need), R.site(snd, e), 'completion predicate reads %s; forwarding guard reads %s' % (sorted(need), sorted(got)), snd.sname)
+    rep.floor(clause, 'upward acknowledgement sends', n, 2)
